@@ -132,9 +132,27 @@ class WB:
         raise ValueError(e)
 
     # ---- renderings -------------------------------------------------------------------------------------
-    def to_dict(self, order=None):
-        """input of ExcelModel.from_dict; `order` permutes the insertion order of the entries"""
+    def referenced_blanks(self):
+        """unpopulated cells inside any rectangle that some formula or name refers to"""
+        pop = set(self.addresses())
+        out = []
+        exprs = [c[-1] for c in self.cells.values() if c[0] != 'v'] + [e for _, e in self.names.values()]
+        for e in exprs:
+            for kind, r in self.deps(e):
+                if kind == 'ref' and r[1] != 0:
+                    for i in range(r[1], r[2] + 1):
+                        for j in range(r[3], r[4] + 1):
+                            if (r[0], i, j) not in pop and (r[0], i, j) not in out:
+                                out.append((r[0], i, j))
+        return out
+
+    def to_dict(self, order=None, explicit_blanks=False):
+        """input of ExcelModel.from_dict; `order` permutes the insertion order of the entries;
+        `explicit_blanks` lists referenced unpopulated cells as '#EMPTY' (as an exported model does)"""
         items = []
+        if explicit_blanks:
+            for (s, r, c) in self.referenced_blanks():
+                items.append((self.key(s, r, c), '#EMPTY'))
         for (s, r, c), cont in self.cells.items():
             if cont[0] == 'v':
                 v = cont[1]
